@@ -147,19 +147,43 @@ class Check:
         ('known', what) | ('spurious', why)"""
         self.obligations += 1
         t_ob = time.time()
-        r, model = self.solve(uni, negated_property)
+        extra = []
+        for _round in range(12):
+            r, model = self.solve(uni, negated_property, *extra)
+            if r != 'sat' or not on_sat:
+                break
+            verdict = on_sat(model)
+            if verdict[0] == 'retry':
+                # look for a witness inside a region where the model is exact; if there is none keep the fallback verdict
+                r2, m2 = self.solve(uni, negated_property, *extra, *verdict[1])
+                self.extra['retries'] = self.extra.get('retries', 0) + 1
+                if r2 == 'sat':
+                    v2 = on_sat(m2)
+                    verdict = v2 if v2[0] not in ('retry', 'refine') else verdict[2]
+                else:
+                    verdict = verdict[2]
+                break
+            if verdict[0] != 'refine':
+                break
+            # the witness relied on an uninterpreted model value that reality contradicts: pin it and ask again
+            extra += list(verdict[1])
+            self.extra['refinements'] = self.extra.get('refinements', 0) + 1
+        else:
+            self.inconclusive.append('%s: refinement did not converge' % name)
+            return False
         dt = time.time() - t_ob
         if dt > 1.0:
             self.slow = sorted(self.slow + [(round(dt, 2), name)], reverse=True)[:10]
         if cvc5:
-            self.cross_check_cvc5(uni, [negated_property], r)
+            self.cross_check_cvc5(uni, [negated_property] + extra, r)
         if sample is not None and len(self.samples) < 12:
             self.samples.append(sample)
         if r == 'unsat':
             self.discharged += 1
             return True
         self.sat += 1
-        verdict = on_sat(model) if on_sat else ('violation', None, name)
+        if not on_sat:
+            verdict = ('violation', None, name)
         if verdict[0] == 'violation':
             self.violations.append((verdict[1], verdict[2]))
         elif verdict[0] == 'known':
@@ -373,6 +397,37 @@ def run_check(fn):
 
 # ----------------------------------------------------------------------
 # helpers shared by the tree-level checks
+
+def reality_pins(check, uni, model):
+    """axioms that pin the uninterpreted number renderings / float parses used by a witness to what Rust really
+    produces for the witness's values (asked from the bridge).  Empty = the witness does not depend on them."""
+    br = check.bridge()
+    pins = []
+    for (kind, t, s) in uni.memo.get(('num_str_all',), []):
+        v = model.eval(t, model_completion=True)
+        if kind == 'f64':
+            bits = model.eval(z3.fpToIEEEBV(t), model_completion=True).as_long()
+            real = bytes(br.call(cmd='fmt', kind='f64', bits=bits)['text'])
+            same = z3.fpToIEEEBV(t) == z3.BitVecVal(bits, 64)
+        else:
+            n = v.as_long()
+            if kind == 'i64':
+                n = norm_int(n, 'i64')
+            real = bytes(br.call(cmd='fmt', kind=kind, v=n)['text'])
+            same = t == v
+        cur = S.model_bytes(model, s)
+        if cur != real:
+            if len(real) <= S.parts(s)[2]:
+                pins.append(z3.Implies(same, z3bool(S.s_eq(s, real))))
+            else:
+                pins.append(z3.Not(same))      # its text does not fit the bounded rendering: outside the bound
+    return pins
+
+
+def exact_rendering_region(uni):
+    """every number whose text the rule looks at is one of the values whose rendering is modelled exactly"""
+    return list(uni.memo.get(('num_str_exact',), []))
+
 
 def sr_term(v):
     """SolverResult value -> z3 BV64 term of its variant index"""
